@@ -306,7 +306,11 @@ def _helper_case(args):
             with warnings.catch_warnings():
                 warnings.simplefilter("ignore")
                 res = mat.evaluate_new_data(new)
-            gotn = np.asarray(res.design_matrix if hasattr(res, "design_matrix") else res, dtype=float).reshape(m, -1)
+            rawn = np.asarray(res.design_matrix if hasattr(res, "design_matrix") else res, dtype=float)
+            if rawn.ndim == 0 or rawn.shape[0] != m:
+                probs.append(({"clause": "helper_new_frame_result_not_one_entry_per_row", "helper": h}, dict(base, got_shape=list(rawn.shape), rows=m)))
+                continue
+            gotn = rawn.reshape(m, -1)
         except Exception as e:  # pylint: disable=broad-except
             probs.append(({"clause": "helper_fails_on_new_frame", "helper": h, "exc": type(e).__name__}, dict(base, error=str(e)[:120])))
             continue
